@@ -17,8 +17,9 @@ B  TLC (NdnPacketsCertGen) enumerates requests - subject key type x issuing sign
 C  random requests (key names of 3..8 components of any type, any instant, duration, zone, clock, synthetic
    shrinking signers of any length) recorded as {q, layout, validity text, covered range}, judged by TLC.
 """
-import json, os, re
+import json, os, re, time
 from datetime import datetime, timedelta, timezone
+from zoneinfo import ZoneInfo
 
 from harness import tlc, tlaval, pktkit as pk, strict_tlv as st
 from harness.tlc import MachineryError
@@ -38,20 +39,28 @@ T0 = datetime(1970, 1, 1)
 # ---------------------------------------------------------------- executor
 
 class Clock:
-    """Patches security_v2's view of the wall clock (datetime.now, timestamp)."""
+    """Patches security_v2's view of the wall clock (datetime.now, timestamp) and puts the PROCESS into the host
+    time zone of the request (TZ + tzset, restored afterwards). Like the real one, FixedDT.now() without a zone
+    returns host-local wall time as a naive datetime; now(UTC) returns the aware instant."""
 
-    def __init__(self, clock):
+    def __init__(self, clock, host='UTC'):
         self.inst = T0 + timedelta(days=clock['d'], seconds=clock['s'], milliseconds=clock['ms'])
         self.ms = (clock['d'] * 86400 + clock['s']) * 1000 + clock['ms']
+        self.host = host
 
     def __enter__(self):
         inst = self.inst
+        self.saved_tz = os.environ.get('TZ')
+        os.environ['TZ'] = self.host
+        time.tzset()
 
         class FixedDT(datetime):
             @classmethod
             def now(cls, tz=None):
                 aware = inst.replace(tzinfo=UTC)
-                return aware.astimezone(tz) if tz is not None else inst
+                if tz is not None:
+                    return aware.astimezone(tz)
+                return aware.astimezone().replace(tzinfo=None)      # host-local wall time, naive
         self.saved = (sv2.datetime, sv2.timestamp)
         sv2.datetime = FixedDT
         sv2.timestamp = lambda: self.ms
@@ -59,6 +68,11 @@ class Clock:
 
     def __exit__(self, *a):
         sv2.datetime, sv2.timestamp = self.saved
+        if self.saved_tz is None:
+            os.environ.pop('TZ', None)
+        else:
+            os.environ['TZ'] = self.saved_tz
+        time.tzset()
 
 
 def in_zone(inst, tz):
@@ -69,6 +83,9 @@ def in_zone(inst, tz):
 
 
 def start_datetime(q):
+    if q.get('zone'):
+        base = T0 + timedelta(days=q['start']['d'], seconds=q['start']['s'])
+        return base.replace(tzinfo=UTC).astimezone(ZoneInfo(q['zone']))
     return in_zone(q['start'], q['tz'])
 
 
@@ -83,6 +100,12 @@ def _zc(tz):
 
 
 def zone_class(q):
+    if q['fn'] in ('derive', 'new_cert') and (T0 + timedelta(days=q['start']['d'])).year < 1000:
+        return 'year-below-1000'
+    if q['fn'] in ('derive', 'new_cert') and q.get('zone'):
+        return 'dst-zone-start'
+    if q.get('host', 'UTC') != 'UTC':
+        return ('clock' if q['fn'] in ('self_sign', 'sign_req') else _zc(q['tz'])) + '/non-utc-host'
     if q['fn'] == 'derive':
         return _zc(q['tz'])
     if q['fn'] == 'new_cert':
@@ -167,7 +190,7 @@ def issue(q, rng, pool, target=True, live=None, keyname=None):
         b.rec = pk.make_signer(q['sg'], rng, pool, b.kl, target)
     b.exc = b.wire = b.cert_name = None
     b.issuer_bytes = {'self_sign': b'\x08\x04self', 'sign_req': b'\x08\x0ccert-request'}.get(q['fn'])
-    with Clock(q['clock']) as ck:
+    with Clock(q['clock'], q.get('host', 'UTC')) as ck:
         b.ms = ck.ms
         try:
             if q['fn'] == 'self_sign':
@@ -180,6 +203,7 @@ def issue(q, rng, pool, target=True, live=None, keyname=None):
             else:
                 b.issuer_arg, b.issuer_bytes = issuer_arg(q, rng)
                 b.cert_name, w = sv2.derive_cert(b.keyname, b.issuer_arg, b.pub, b.rec, start_datetime(q), q['dur'])
+            b.raw = w                 # the caller's buffer, kept alive (re-read later: must not change)
             b.wire = bytes(w)
         except MachineryError:
             raise
@@ -305,7 +329,7 @@ def check_issued(ctx, q, exp, b, pool, stage, label=None, rep=None):
     if exp is not None:
         want = pk.exp_layout(exp)
         if lay != want:
-            ctx.violation('C16/%s/layout/differs-%s' % (fn, pk.first_diff(want, lay)),
+            ctx.violation('C16/%s/layout/differs-%s%s' % (fn, pk.first_diff(want, lay), '/year-below-1000' if zone_class(q) == 'year-below-1000' else ''),
                           'certificate layout differs from the reference: expected %s observed %s' % (want, lay), rep)
             return lay
     shape_ok = len(find(lay, 7, 1)) == 1 and len(find(lay, 21, 1)) == 1 and len(find(lay, 24, 2)) == 1 and \
@@ -400,8 +424,17 @@ def rand_req(rng, pool):
     forms = ['comp', 'typed'] + (['escaped'] if issuer['l'] > 0 else []) + (['plain'] * 2 if issuer['t'] == 8 and issuer['l'] > 0 else []) \
         + (['short'] * 2 if issuer['t'] in SHORTHAND and issuer['l'] in (1, 2, 4, 8) else [])
     idform = rng.choice(forms) if fn == 'derive' else 'comp'
+    zone = ''
+    if fn in ('derive', 'new_cert') and rng.random() < 0.15:
+        zone, tz = rng.choice(['America/New_York', 'Europe/Berlin', 'Australia/Sydney', 'America/Los_Angeles']), 0
+        if rng.random() < 0.5:      # right before a change of the zone's clock
+            start = {'d': days(*rng.choice([(2024, 3, 9), (2024, 3, 30), (2024, 10, 26), (2024, 11, 2), (2025, 4, 5), (2025, 10, 4)])),
+                     's': rng.randrange(86400)}
+    if fn in ('derive', 'new_cert') and rng.random() < 0.04:
+        start = {'d': days(rng.choice([1, 99, 999, 1000, 1582, 1900, 1969]), rng.choice([1, 12]), rng.choice([1, 28])), 's': rng.randrange(86400)}
+    host = rng.choice(['UTC', 'UTC', 'America/Los_Angeles', 'Asia/Kolkata', 'Europe/Berlin', 'Pacific/Auckland'])
     return {'fn': fn, 'subj': subj, 'keyname': keyname, 'lit': lit, 'publen': len(pool.pub_der(subj)), 'issuer': issuer, 'idform': idform,
-            'sg': sg, 'clock': clock, 'start': start, 'dur': dur, 'tz': tz, 'tz2': tz2}
+            'sg': sg, 'clock': clock, 'start': start, 'dur': dur, 'tz': tz, 'tz2': tz2, 'zone': zone, 'host': host}
 
 
 def record(ctx, q, pool, exp=None):
@@ -513,7 +546,7 @@ def run_history(ctx, kind, init, steps, shapes, pool, stage):
         except Exception:  # noqa
             return 0
         return next((i for i, nm in names.items() if nm == now), 0)
-    ev, certs = [], []
+    ev, certs, held = [], [], []
     hist_rep = {'kind': 'history', 'signer': kind, 'init': init, 'steps': [list(x) for x in steps],
                 'shapes': {str(k): v for k, v in shapes.items()}}
     for stp in steps:
@@ -527,7 +560,7 @@ def run_history(ctx, kind, init, steps, shapes, pool, stage):
         else:
             fn = stp[1]
             q = {'fn': fn, 'subj': 'ec256', 'keyname': keyshape, 'lit': ['', 'KEY', ''],
-                 'publen': len(pool.pub_der('ec256')), 'issuer': {'t': 8, 'l': 3}, 'idform': 'plain', 'tz2': NAIVE, 'sg': live.sg(shapes[cur]),
+                 'publen': len(pool.pub_der('ec256')), 'issuer': {'t': 8, 'l': 3}, 'idform': 'plain', 'tz2': NAIVE, 'zone': '', 'host': 'UTC', 'sg': live.sg(shapes[cur]),
                  'clock': {'d': 20000 + len(ev), 's': 3600, 'ms': 5}, 'start': {'d': 19000, 's': 0}, 'dur': 86400, 'tz': NAIVE}
             before = configured()
             b = issue(q, ctx.rng, pool, target=False, live=(live.obj, names[cur]), keyname=keyname)
@@ -544,6 +577,17 @@ def run_history(ctx, kind, init, steps, shapes, pool, stage):
                     for i, nm in names.items():
                         if body == st.write_tlv([(7, b''.join(nm))]):
                             seen = i
+            if b.exc is None:
+                try:
+                    pc = sv2.parse_certificate(b.raw)
+                    held.append({'fn': fn, 'raw': b.raw, 'wire': b.wire, 'cert_name': b.cert_name,
+                                 'cert_name_snap': [bytes(c) for c in b.cert_name], 'parsed': pc,
+                                 'parsed_snap': ([bytes(c) for c in pc.name], bytes(pc.content),
+                                                 [bytes(c) for c in pc.signature_info.key_locator.name] if pc.signature_info.key_locator else None)})
+                except Exception:  # noqa: reported by field_checks
+                    held.append(None)
+            else:
+                held.append(None)
             after = configured()
             if after != before:
                 ctx.violation('C16/signer-reuse/%s/%s/issuing-reconfigured-the-signer' % (kind, fn),
@@ -556,7 +600,32 @@ def run_history(ctx, kind, init, steps, shapes, pool, stage):
                 rec['na'] = list(val(b.wire, find(lay, 255)[0]))
                 rec['signed'] = [{'lo': lay[0][3], 'hi': lay[-1][2]}]
             certs.append(rec)
+        if held and (stp[0] != 'Issue' or len(held) > 1) and ctx.rng.random() < 0.5:
+            ev.append(recheck(ctx, kind, held, hist_rep))
+    if held:
+        ev.append(recheck(ctx, kind, held, hist_rep))
     return {'signer': kind, 'init': init, 'ev': ev, 'rep': hist_rep}, certs
+
+
+def recheck(ctx, kind, held, rep):
+    """The application kept the buffers, names and parse results it was handed: they must still be what they were."""
+    same = []
+    for h in held:
+        ok = True
+        if h is not None:
+            pc = h['parsed']
+            try:
+                now = ([bytes(c) for c in pc.name], bytes(pc.content),
+                       [bytes(c) for c in pc.signature_info.key_locator.name] if pc.signature_info.key_locator else None)
+            except Exception:  # noqa
+                now = None
+            ok = bytes(h['raw']) == h['wire'] and [bytes(c) for c in h['cert_name']] == h['cert_name_snap'] and now == h['parsed_snap']
+            if not ok:
+                what = 'returned-buffer' if bytes(h['raw']) != h['wire'] else 'returned-name' if [bytes(c) for c in h['cert_name']] != h['cert_name_snap'] else 'parse-result'
+                ctx.violation('C16/signer-reuse/%s/%s/held-certificate-changed/%s' % (kind, h['fn'], what),
+                              'a certificate issued earlier (%s kept by the caller) changed after later operations' % what, rep)
+        same.append(ok)
+    return {'a': 'Recheck', 'same': same}
 
 
 def judge_histories(ctx, hists, certs, stage):
@@ -662,26 +731,28 @@ def hist_stage_c(ctx, pool):
 
 def datetime_records(rng, n):
     recs = []
-    special = [(1970, 1, 1), (1970, 12, 31), (1972, 2, 29), (1999, 12, 31), (2000, 1, 1), (2000, 2, 29), (2000, 3, 1),
+    def fmt(t):
+        return list(('%04d%02d%02dT%02d%02d%02d' % (t.year, t.month, t.day, t.hour, t.minute, t.second)).encode())
+    special = [(1, 1, 1), (999, 12, 31), (1000, 1, 1), (1600, 2, 29), (1900, 2, 28), (1900, 3, 1), (1969, 12, 31), (1970, 1, 1), (1970, 12, 31), (1972, 2, 29), (1999, 12, 31), (2000, 1, 1), (2000, 2, 29), (2000, 3, 1),
                (2024, 2, 28), (2024, 2, 29), (2024, 3, 1), (2038, 1, 19), (2099, 12, 31), (2100, 1, 1), (2100, 2, 28),
                (2100, 3, 1), (2399, 12, 31), (2400, 2, 29), (2400, 12, 31), (9999, 1, 1), (9999, 12, 30), (9979, 12, 31)]
     for i in range(n):
         if i < len(special):
             d = days(*special[i])
         else:
-            d = rng.randint(0, days(9979, 12, 31))
+            d = rng.randint(days(1, 1, 1) if rng.random() < 0.1 else 0, days(9979, 12, 31))
         s = rng.choice([0, 1, 59, 60, 3599, 3600, 43200, 86399, rng.randrange(86400)])
         nsec = rng.choice([0, 1, 86400 - s, 86400, 365 * 86400, 7305 * 86400, rng.randrange(7305 * 86400)])
         t = T0 + timedelta(days=d, seconds=s)
         nsec = min(nsec, int((datetime(9999, 12, 31, 23, 59, 59) - t).total_seconds()))
         t2 = t + timedelta(seconds=nsec)
         recs.append({'d': d, 's': s, 'y': t.year, 'm': t.month, 'dd': t.day, 'n': nsec,
-                     'txt': list(t.strftime('%Y%m%dT%H%M%S').encode()), 'txt2': list(t2.strftime('%Y%m%dT%H%M%S').encode())})
+                     'txt': fmt(t), 'txt2': fmt(t2)})
     return recs
 
 
-CAL_WINDOWS_Q = [(1970, 2030), (2096, 2104), (2396, 2404), (9995, 9999)]
-CAL_WINDOWS_T = [(1970, 2410), (9900, 9999)]
+CAL_WINDOWS_Q = [(997, 1002), (1970, 2030), (2096, 2104), (2396, 2404), (9995, 9999)]
+CAL_WINDOWS_T = [(1, 12), (990, 1010), (1970, 2410), (9900, 9999)]
 
 
 def run(ctx):
@@ -778,7 +849,7 @@ def report_rejected(ctx, recs, rejected, stage):
             continue        # self_sign on 29 February: already reported by check_issued under its own signature
         q = rec['q']
         sig = 'C16/%s/trace/%s' % (FN_NAME[q['fn']], names.get(code, 'clause-' + code))
-        if code in ('4', '5'):
+        if code in ('4', '5') or (code == '3' and zone_class(q) == 'year-below-1000'):
             sig += '/' + zone_class(q)
         ctx.violation(sig, 'stage %s: recorded issuance rejected by NdnPacketsCertTrace (clause %s = %s): nb=%r na=%r q=%s' % (
             stage, code, names.get(code), bytes(rec['nb']), bytes(rec['na']), json.dumps(q)[:500]),
@@ -791,6 +862,8 @@ def nontrivial(q):
     if q['sg']['a'] < q['sg']['r'] or (q['fn'] in ('derive', 'new_cert') and (q['tz'] not in (NAIVE, 0) or q['tz2'] != q['tz'])):
         return True
     if q['fn'] == 'derive' and q['idform'] in ('typed', 'escaped', 'short'):
+        return True
+    if q.get('zone') or q.get('host', 'UTC') != 'UTC' or q['start']['d'] < 0:
         return True
     if q['clock']['d'] < 50:
         return True
